@@ -8,10 +8,7 @@ use {
         Case,
         Ctx,
     },
-    graaf::{
-        gen::prng::Xoshiro256StarStar,
-        *,
-    },
+    graaf::gen::prng::Xoshiro256StarStar,
 };
 
 // ------------------------------------------------------------------ C14 ----
